@@ -214,6 +214,16 @@ class Evaluator:
                 return None
             if isinstance(op, ast.In):
                 a = self.av(l)
+                if a is not None and isinstance(r, (ast.Name, ast.Attribute)):
+                    # a constant table spelled by name
+                    try:
+                        r = self.prog.const_expr(self.module, r,
+                                                 names_ok=True) or r
+                    except Exception:
+                        pass
+                if a is not None and isinstance(r, ast.Dict) and all(
+                        isinstance(k, ast.Constant) for k in r.keys):
+                    r = ast.Tuple(elts=list(r.keys), ctx=ast.Load())
                 if a is not None and isinstance(
                         r, (ast.List, ast.Tuple, ast.Set)) and all(
                             isinstance(e, ast.Constant) for e in r.elts):
@@ -224,6 +234,38 @@ class Evaluator:
                         return False
                 return None
         return None
+
+
+def fold_table_lookup(prog, module, expr, binding):
+    """`TABLE[x]` where TABLE is a dict display (or a constant table spelled
+    by name) with constant keys and `x` is bound to an abstract value equal
+    to exactly one of them -> that entry; else `expr` unchanged."""
+    class T(ast.NodeTransformer):
+        def visit_Subscript(self, n):
+            self.generic_visit(n)
+            tab = n.value
+            if isinstance(tab, (ast.Name, ast.Attribute)):
+                try:
+                    tab = prog.const_expr(module, tab, names_ok=True) or tab
+                except Exception:
+                    pass
+            if not isinstance(tab, ast.Dict) or not all(
+                    isinstance(k, ast.Constant) for k in tab.keys):
+                return n
+            try:
+                a = binding.get(ast.unparse(n.slice))
+            except Exception:
+                a = None
+            if a is None:
+                return n
+            hits = [v for k, v in zip(tab.keys, tab.values)
+                    if a.equals(k.value) is True]
+            rest = [k for k in tab.keys if a.equals(k.value) is None]
+            if len(hits) == 1 and not rest:
+                return hits[0]
+            return n
+    import copy
+    return T().visit(copy.deepcopy(expr))
 
 
 def feasible(paths, evaluator_for):
